@@ -365,13 +365,12 @@ func c05Live(w *explore.Worker, c c05Case) {
 		return
 	}
 	pr := c05LiveProbes[pi]
-	editor := "set-user"
-	if batch == 1 {
-		editor = "update-user"
-	}
+	// editor 0: SetUser; 1: UpdateUser; 2: UpdateUser renaming the account and changing its access in one
+	// entry; 3: UpdateUser renames first, a later SetUser on the new login changes the access
+	editor := []string{"set-user", "update-user", "update-user-rename-and-edit", "rename-then-set-user"}[batch]
 	fail := func(clause, detail string) {
 		sig := "C05/live-session/" + pr.name + "/" + clause
-		if batch == 1 {
+		if batch >= 1 {
 			sig = "C05/live-session/" + editor + "/" + pr.name + "/" + clause
 		}
 		w.Violation(sig, fmt.Sprintf("probe %s grant=%d edited with %s: %s", pr.name, grant, editor, detail), 0, c)
@@ -395,9 +394,21 @@ func c05Live(w *explore.Worker, c c05Case) {
 			return
 		}
 		var id uint32
-		if batch == 1 {
+		switch batch {
+		case 1:
 			id = adm.Req(ref.TUpdateUser, ref.F(ref.FData, subFields(ref.F(ref.FUserLogin, obf("vic")), ref.FS(ref.FUserName, "Victim"), ref.F(ref.FUserPassword, []byte{0}), ref.F(ref.FUserAccess, after[:]))))
-		} else {
+		case 2:
+			id = adm.Req(ref.TUpdateUser, ref.F(ref.FData, subFields(ref.F(ref.FData, obf("vic")), ref.F(ref.FUserLogin, obf("vic2")), ref.FS(ref.FUserName, "Victim"), ref.F(ref.FUserPassword, []byte{0}), ref.F(ref.FUserAccess, after[:]))))
+		case 3:
+			id = adm.Req(ref.TUpdateUser, ref.F(ref.FData, subFields(ref.F(ref.FData, obf("vic")), ref.F(ref.FUserLogin, obf("vic2")), ref.FS(ref.FUserName, "Victim"), ref.F(ref.FUserPassword, []byte{0}), ref.F(ref.FUserAccess, before[:]))))
+			world.Quiet()
+			if r := adm.Reply(id); r == nil || r.Err != 0 {
+				fail("rename-refused", fmt.Sprint(r))
+				return
+			}
+			id = adm.Req(ref.TSetUser, ref.F(ref.FUserLogin, obf("vic2")), ref.FS(ref.FUserName, "Victim"), ref.F(ref.FUserPassword, []byte{0}), ref.F(ref.FUserAccess, after[:]))
+		}
+		if batch == 0 {
 			id = adm.Req(ref.TSetUser, ref.F(ref.FUserLogin, obf("vic")), ref.FS(ref.FUserName, "Victim"), ref.F(ref.FUserPassword, []byte{0}), ref.F(ref.FUserAccess, after[:]))
 		}
 		world.Quiet()
@@ -832,7 +843,8 @@ func runC05(w *explore.Worker) {
 	}
 	for pi := range c05LiveProbes {
 		for grant := 0; grant < 2; grant++ {
-			cases = append(cases, c05Case{Kind: fmt.Sprintf("live:%d:%d", pi, grant)}, c05Case{Kind: fmt.Sprintf("live:%d:%d:1", pi, grant)})
+			cases = append(cases, c05Case{Kind: fmt.Sprintf("live:%d:%d", pi, grant)}, c05Case{Kind: fmt.Sprintf("live:%d:%d:1", pi, grant)},
+				c05Case{Kind: fmt.Sprintf("live:%d:%d:2", pi, grant)}, c05Case{Kind: fmt.Sprintf("live:%d:%d:3", pi, grant)})
 		}
 	}
 	// shard by kind-major order so that each worker computes few references: deal cases round robin per kind block
